@@ -152,7 +152,12 @@ func verifRat(f float64) string {
 	return r.String()
 }
 
-func verifHex(s string) string { return hex.EncodeToString([]byte(s)) }
+func verifHex(s string) string {
+	if s == "" {
+		return "-"
+	}
+	return hex.EncodeToString([]byte(s))
+}
 
 func verifScalar(v interface{}) string {
 	switch x := v.(type) {
@@ -292,6 +297,9 @@ func (server *SugarDB) VerifPreset(database int, key string, value interface{}, 
 }
 
 func verifUnhex(s string) (string, error) {
+	if s == "-" {
+		return "", nil
+	}
 	b, err := hex.DecodeString(s)
 	return string(b), err
 }
